@@ -341,7 +341,8 @@ static int mtx_irem(void *dest, number a, int n) {
   if (a.i==0) PY_ERR_INT(PyExc_ZeroDivisionError, "division by zero");
   int i;
   for (i=0; i<n; i++)
-    ((int_t *)dest)[i] %= a.i;
+    /* x % -1 is 0; the division overflows (SIGFPE) for the smallest integer */
+    ((int_t *)dest)[i] = (a.i == -1 ? 0 : ((int_t *)dest)[i] % a.i);
 
   return 0;
 }
